@@ -91,6 +91,17 @@ theorem insulated_exact (P : Prob ℝ) (T : GField ℝ) (hst : P.steady = false)
     P.energy T = P.energy P.Tn :=
   SrModel.Thermal.insulated_exact P T hst hsol hcp hr hin hout hsrc
 
+/-- **history_balance**: whole histories (any number of steps and sub-steps, coefficients
+re-evaluated every step): total change of stored heat = sum of the per-step heat inputs -/
+theorem history_balance (P : Nat → Prob ℝ) (T : Nat → GField ℝ)
+    (hgrid : ∀ n, (P n).energy = (P 0).energy)
+    (hst : ∀ n, (P n).steady = false) (hsol : ∀ n, (P n).Solves (T (n+1)))
+    (hcp : ∀ n, (P n).CPeriodic) (hr : ∀ n i, (P n).isRealI i = true → (P n).rr i ≠ 0)
+    (hprev : ∀ n i j k, (P n).isRealI i = true → (P n).isRealJ j = true → (P n).isRealK k = true →
+      (P n).Tn i j k = T n i j k) (N : Nat) :
+    (P 0).energy (T N) - (P 0).energy (T 0) = ∑ n ∈ Finset.range N, (P n).heatIn (T (n+1)) :=
+  SrModel.Thermal.history_balance P T hgrid hst hsol hcp hr hprev N
+
 /-- the executable rows compared with the implementation are the rows `Solves` speaks about -/
 theorem rows_are_solves (P : Prob ℝ) (x : Nat → ℝ) (h : ∀ r ∈ P.rows, r.res x = 0) :
     P.Solves (fieldOf P x) := solves_of_rows P x h
